@@ -184,6 +184,8 @@ type unmarshalEntry struct {
 type hasher struct {
 	// IDSize of the respective Shwap container
 	IDSize int // to be set during hasher registration
+	// mhCode is the multihash code the hasher is registered for
+	mhCode uint64
 
 	sum []byte
 }
@@ -209,6 +211,11 @@ func (h *hasher) write(data []byte) error {
 	id, err := extractFromCID(cid)
 	if err != nil {
 		return err
+	}
+	// the data must be of the Block type this hasher is registered for, otherwise the ID of one
+	// Block type (cut to IDSize) could be taken for the ID of another type
+	if cid.Prefix().MhType != h.mhCode {
+		return fmt.Errorf("multihash code %d of the block doesn't match hasher's %d", cid.Prefix().MhType, h.mhCode)
 	}
 
 	// get registered UnmarshalFn and use it to check data validity and
